@@ -10,6 +10,9 @@ use router::{LspClient, Router, ServerConfig};
 
 pub mod router;
 
+#[cfg(feature = "verif")]
+pub mod verif;
+
 #[derive(Debug, serde::Deserialize, serde::Serialize, Clone, PartialEq, Default)]
 pub struct ServerParams {
     pub state: Option<HashMap<String, String>>,
